@@ -303,8 +303,12 @@ impl World {
                 "queued".into()
             }
             Ok(Err(e)) if e.kind() == std::io::ErrorKind::InvalidInput => {
-                if 1 + n <= self.peer_max {
-                    mfail(sink, "refuse:refused-but-fits", &format!("datagram of {} bytes refused, frame of {} fits peer limit {}", n, 1 + n, self.peer_max));
+                // a refusal is "not at all" and therefore allowed whenever SOME encoding of the frame could
+                // exceed the limit; it is a needless refusal only when even the with-length frame fits
+                // (between the two bounds the exact correspondence pins the code's choice).
+                let with_len = 1 + varint_size(n) + n;
+                if with_len <= self.peer_max {
+                    mfail(sink, "refuse:refused-but-fits", &format!("datagram of {} bytes refused, its largest frame ({} bytes, with length) fits peer limit {}", n, with_len, self.peer_max));
                 }
                 self.interesting += 1;
                 sink.branch("send:refused");
@@ -572,6 +576,11 @@ impl World {
     }
 }
 
+/// RFC 9000 §16 size of a varint (the monitor's own arithmetic, not the repo's `VarInt`)
+fn varint_size(v: u64) -> u64 {
+    if v < 1 << 6 { 1 } else if v < 1 << 14 { 2 } else if v < 1 << 30 { 4 } else { 8 }
+}
+
 // ---------------------------------------------------------------------------------------------
 // generators
 
@@ -772,14 +781,24 @@ pub fn run_pkg(o: &Opts) {
         }
     }
     let todo_markers = burst.matches("// TODO: datagram").count();
-    sink.line("packages", &format!("found={} offered={} callers={} todo={}", !body.is_empty() as u8, offered_in_packages as u8, callers.len(), todo_markers));
+    // the two source tuples of `packages()`: `let zero_rtt_packages = Packages((…));` / `let one_rtt_packages = …`
+    let segment = |name: &str| -> String {
+        let Some(at) = body.find(&format!("let {}", name)) else { return String::new() };
+        let rest = &body[at + 4..];
+        let end = rest.find("let ").or_else(|| rest.find("DataSources")).unwrap_or(rest.len());
+        rest[..end].to_string()
+    };
+    let (seg0, seg1) = (segment("zero_rtt_packages"), segment("one_rtt_packages"));
+    let (zerortt, onertt) = (seg0.contains("datagram_flow"), seg1.contains("datagram_flow"));
+    sink.line("packages", &format!("found={} offered={} callers={} todo={} onertt={} zerortt={}",
+        !body.is_empty() as u8, offered_in_packages as u8, callers.len(), todo_markers, onertt as u8, zerortt as u8));
     sink.note("datagram_flow_uses_in_qconnection", serde_json::json!(flow_mentions));
-    if body.is_empty() {
-        mfail(&mut sink, "packages:not-found", "could not locate `fn packages` in qconnection/src/path/burst.rs (source left the recognised shape)");
-    } else if !offered_in_packages && callers.is_empty() {
-        mfail(&mut sink, 
+    if body.is_empty() || seg1.is_empty() {
+        mfail(&mut sink, "packages:not-found", "could not locate `fn packages` / `let one_rtt_packages` in qconnection/src/path/burst.rs (source left the recognised shape)");
+    } else if !onertt && callers.is_empty() {
+        mfail(&mut sink,
             "datagram-never-offered:packages",
-            &format!("Components::packages() (qconnection/src/path/burst.rs) builds the 0-RTT and 1-RTT data sources without the datagram queue ({} `// TODO: datagram` markers) and nothing in qconnection calls DatagramFlow::try_load_data_into: an accepted datagram is never put on the wire. uses of datagram_flow: {:?}", todo_markers, flow_mentions));
+            &format!("Components::packages() (qconnection/src/path/burst.rs) builds the 1-RTT data sources without the datagram queue ({} `// TODO: datagram` markers) and nothing in qconnection calls DatagramFlow::try_load_data_into: an accepted datagram is never put on the wire. uses of datagram_flow: {:?}", todo_markers, flow_mentions));
     }
     mf_note(&mut sink);
     sink.nontrivial();
